@@ -14,7 +14,7 @@ def main(tier):
     rng = random.Random(chk.seed)
     atoms = pool.atom_thunks()
     comps = pool.composite_thunks(rng, atoms, 150 if tier == "quick" else 2000)
-    objs = [(d, th()) for d, th in atoms + comps]
+    objs = [(d, th()) for d, th in atoms + comps + pool.nested_not_thunks(atoms)]
     # grid atoms of C02/C03 as well (built through lower)
     grid = cases.scalar_atoms() + cases.coll_atoms() + list(cases.quantified_atoms(cases.elem_preds()[:20]))
     grid += [("not", g) for g in grid]
@@ -33,7 +33,7 @@ def main(tier):
     chk.evaluations += len(reqs)
     kinds = set()
     # the property on the real code
-    values = pool.PROBE_VALUES + cases.coll_values()[:40]
+    values = pool.PROBE_VALUES + cases.coll_values()[:40] + cases.coll_values()[-5:]
     checked = 0
     for d, p in objs:
         try:
